@@ -92,7 +92,7 @@ check("C02", "acknowledged pushes read back identically", "exploration",
 check("C03", "tags are a last-writer-wins map; listing and paging exact", "exploration",
       "rapid state machine vs model map tag->digest; Link chains followed to the end; n/last boundary values",
       "Randomised model-based search over tag pushes, overwrites, multi-tagging, tag and digest deletes and restarts with grammar-edge tags on both stores; after every step the full "
-      "listing, every tag and every digest is compared with the model; listings with every kind of n/last value are followed along their Link chain.",
+      "listing, every tag and every digest is compared with the model; listings with every kind of n/last value are followed along their Link chain. TestC03Faults (vfs build): the fault histories of TestC02Faults judged for tags - an acknowledged tag that no later request addressed still resolves to its manifest and the listing equals the set of resolvable tags, on the running server and after Close + New.",
       "Trusted: the model map; byte-order comparison of Go strings as 'lexical order'.",
       "DESIGN.md §3 C03",
       [R("^TestC03$", 4000, 80000, steps=40)])
